@@ -42,6 +42,9 @@ func setBundleIDFromConsumableStore(ctx context.Context, bundle *Bundle) error {
 	for _, key := range keys {
 		bundleID, err = getBundleIDFromPath(key)
 		if err != nil {
+			if _, ok := err.(model.ConsumableStorePathMetadataErr); ok {
+				continue // a data file that sorts before the .datamon metadata (e.g. "-notes" or "+x")
+			}
 			return err
 		}
 		if bundleID != "" {
